@@ -30,6 +30,7 @@ type FuncResult struct {
 	UnusedCallee []string      `json:"unused_callee_clauses,omitempty"`
 	Loops        int           `json:"loops"`
 	LoopsNoInv   []int         `json:"loops_without_invariant,omitempty"`
+	Drift        []string      `json:"drift,omitempty"`
 	GenMs        float64       `json:"gen_ms"`
 	ScriptBytes  int           `json:"script_bytes"`
 }
@@ -245,7 +246,8 @@ func verifyFunction(w *World, fn *ssa.Function) *FuncResult {
 	if spec != nil {
 		for n := range spec.Loops {
 			if n > len(g.loops) {
-				fr.Error = fmt.Sprintf("contract-drift: contract names loop %d but the function has %d loops", n, len(g.loops))
+				// not fatal: the remaining clauses (ensures, callee oracles, safety) are still checked
+				fr.Drift = append(fr.Drift, fmt.Sprintf("contract names loop %d but the function has %d loops", n, len(g.loops)))
 			}
 		}
 		for _, cs := range spec.Callees {
